@@ -5,8 +5,8 @@ import os
 import sys
 
 sys.path.insert(0, os.path.dirname(os.path.abspath(__file__)))
-from harnesses import HARNESSES  # noqa
-from manifest_meta import META, NOT_APPLICABLE  # noqa
+from harnesses import HARNESSES, META  # noqa
+from manifest_meta import NOT_APPLICABLE  # noqa
 
 V = os.path.dirname(os.path.dirname(os.path.abspath(__file__)))
 props = [json.loads(l) for l in open(os.path.join(V, "properties.jsonl"))]
